@@ -222,7 +222,10 @@ func (u *staticUpstream) From() string {
 }
 
 func (u *staticUpstream) NewHost(host string) (*UpstreamHost, error) {
-	if !strings.HasPrefix(host, "http") &&
+	// (a scheme, not a host name that merely begins with the letters:
+	// httpd:80 was taken for the scheme "httpd" and never reached)
+	if !strings.HasPrefix(host, "http://") &&
+		!strings.HasPrefix(host, "https://") &&
 		!strings.HasPrefix(host, "unix:") &&
 		!strings.HasPrefix(host, "quic:") &&
 		!strings.HasPrefix(host, "srv://") &&
